@@ -1100,11 +1100,17 @@ Proof.
   rewrite C1, C2, load_threshold_cap by (rewrite LG_MIN_val in L1; lia). rewrite Hact. exact Hfit.
 Qed.
 
-(* ---------- non-vacuity: a concrete purged sketch with a cluster that wraps around the table end ---------- *)
-Definition ex_hash (k : Z) : N := match k with 11%Z => 7 | 12%Z => 7 | 13%Z => 2 | _ => 0 end.
+(* ---------- non-vacuity, and the limit of the format ----------
+   A well-formed sketch (map size 8, six counters, the cluster of items 1 and 2 wraps around the
+   table end) whose round-trip copy is the same finite map in a different slot layout; one further
+   update purges the original with median 4 and the copy with median 5 (the purge samples the
+   first six of the seven counters in slot order). *)
+Definition ex_hash (k : Z) : N :=
+  match k with 1%Z => 7 | 2%Z => 7 | 3%Z => 1 | 4%Z => 2 | 5%Z => 3 | 6%Z => 4 | 7%Z => 5 | _ => 0 end.
 Definition ex_tab : list (option entry) :=
-  [Some (mkEntry 12 7 4 2); None; Some (mkEntry 13 2 9 1); None; None; None; None; Some (mkEntry 11 7 5 1)].
-Definition ex_fc : fc := mkFc 4 6 3 40 12 (mkRp 3 6 ex_tab 3).
+  [Some (mkEntry 2 7 1 2); Some (mkEntry 3 1 2 1); Some (mkEntry 4 2 3 1); Some (mkEntry 5 3 4 1); Some (mkEntry 6 4 5 1);
+   None; None; Some (mkEntry 1 7 10 1)].
+Definition ex_fc : fc := mkFc 3 6 0 25 6 (mkRp 3 6 ex_tab 6).
 
 Lemma ex_fc_wf : fc_wf ex_hash ex_fc.
 Proof.
@@ -1123,3 +1129,27 @@ Proof.
   - repeat constructor.
   - unfold M64. lia.
 Qed.
+
+Lemma ex_layout_not_carried :
+  fc_wf ex_hash ex_fc /\
+  exists c' c1 c1' tr tr',
+    fc_deserialize (fc_serialize ex_fc) (map e_hash (active_entries (fc_map ex_fc))) = Ok c' /\
+    fc_same ex_hash ex_fc c' /\ rp_tab (fc_map c') <> ex_tab /\
+    fc_update ex_fc 7 (ex_hash 7) 6 = Ok (c1, tr) /\ fc_update c' 7 (ex_hash 7) 6 = Ok (c1', tr') /\
+    fc_offset c1 = 4 /\ fc_offset c1' = 5.
+Proof.
+  split; [exact ex_fc_wf|].
+  destruct (roundtrip ex_hash ex_fc ex_fc_wf) as (c' & E & Same & _ & _).
+  assert (E2 : exists x, fc_deserialize (fc_serialize ex_fc) (map e_hash (active_entries (fc_map ex_fc))) = Ok x /\
+                         rp_tab (fc_map x) <> ex_tab /\
+                         exists c1' tr', fc_update x 7 (ex_hash 7) 6 = Ok (c1', tr') /\ fc_offset c1' = 5).
+  { eexists. split; [vm_compute; reflexivity|]. split; [vm_compute; discriminate|].
+    do 2 eexists. split; [vm_compute; reflexivity|reflexivity]. }
+  destruct E2 as (x & Ex & Hne & c1' & tr' & Eu & Eo). rewrite E in Ex. inversion Ex; subst x.
+  exists c'. do 2 eexists. exists [[1; 2; 3; 4; 5; 6]], tr'.
+  split; [exact E|]. split; [exact Same|]. split; [exact Hne|].
+  split; [vm_compute; reflexivity|]. split; [exact Eu|]. split; [reflexivity|exact Eo].
+Qed.
+
+Lemma rejected_builds_nothing bs hashes : fc_parse bs = Err -> fc_deserialize bs hashes = Err.
+Proof. intros E. unfold fc_deserialize. rewrite E. reflexivity. Qed.
